@@ -23,7 +23,7 @@ type FaultSpec struct {
 	DelayP   float64
 	MaxDelay time.Duration
 	Until    time.Duration
-	Seed int64
+	Seed     int64
 	// DropFirstTx lists message indices (as embedded in bytes 1..4 of a
 	// message of >=5 bytes) whose first transmission is dropped regardless
 	// of Until: used for tail-loss scenarios.
